@@ -2,7 +2,7 @@
 from common import *  # noqa
 import dbtie
 
-PROFILE = {'scenario_pref': ['buffered_handle', 'odd_strings', 'linebreaks', 'remove_first', 'ooo_then_remove', 'none_name', 'same_size', 'same_size', 'epoch', 'substring_names', 'range_ends', 'epoch', 'same_row_twice', 'getter_memo', 'carriers', 'handle_times'], 'p_write': 0.35, 'getter_bias': 0.8}
+PROFILE = {'scenario_also': ['line_separators', 'dotted_keys'], 'scenario_pref': ['buffered_handle', 'odd_strings', 'linebreaks', 'remove_first', 'ooo_then_remove', 'none_name', 'same_size', 'same_size', 'epoch', 'substring_names', 'range_ends', 'epoch', 'same_row_twice', 'getter_memo', 'carriers', 'handle_times'], 'p_write': 0.35, 'getter_bias': 0.8}
 
 
 def kwargs_for(h):
